@@ -98,6 +98,23 @@ func (c *dq) setup(o SetupOp) {
 		c.d.Shrink(o.N % 3)
 	case "Grow":
 		c.d.Grow(o.N)
+	case "BigToQuarter":
+		// a long backlog that has mostly been worked off: thousands of pushes, then pops until the deque is just
+		// above a quarter (N%3: exactly at / one above / two above) of its buffer - the next pop or two cross the line
+		for i := 0; i < 1100+o.N*131%3000; i++ {
+			c.d.PushBack(c.fresh())
+		}
+		for {
+			capacity, _, _, _ := c.d.VerifState()
+			if c.d.Len() <= capacity/4+o.N%3 || c.d.Len() <= 1 {
+				break
+			}
+			if o.N%2 == 0 {
+				c.d.PopFront()
+			} else {
+				c.d.PopBack()
+			}
+		}
 	case "FillToCap":
 		capacity, _, _, _ := c.d.VerifState()
 		for c.d.Len() < capacity {
@@ -178,12 +195,26 @@ func (c *dq) apply(o MidOp) effect {
 
 // ---------------------------------------------------------------- heap
 
+// hel is the heap's element type: {pri, id} plus a string, so that the element type holds a pointer (code that
+// treats pointer-free and pointer-holding element types differently takes the second path).
+type hel struct {
+	pri, id int
+	name    string
+}
+
+func mkHel(pri, id int) hel { return hel{pri, id, fmt.Sprintf("job-%d", id)} }
+
 type hp struct {
-	h    xheap.Heap[[2]int] // {pri, id}
+	h    xheap.Heap[hel]
 	next int
 }
 
-func pack(e [2]int) int { return e[1]<<12 | (e[0] + 100) }
+func pack(e hel) int {
+	if e.name != fmt.Sprintf("job-%d", e.id) {
+		return -1 // not an element anybody pushed
+	}
+	return e.id<<12 | (e.pri + 100)
+}
 func (c *hp) snapshot() []int {
 	var out []int
 	it := c.h.Iterate()
@@ -210,7 +241,7 @@ func (c *hp) apply(o MidOp) effect {
 	switch o.Op {
 	case "Push":
 		c.next++
-		c.h.Push([2]int{o.A % 6, c.next})
+		c.h.Push(mkHel(o.A%6, c.next))
 		return addRemove
 	case "Pop":
 		if c.h.Len() == 0 {
@@ -228,7 +259,7 @@ func (c *hp) apply(o MidOp) effect {
 		target := []int{256, 65536}[o.A%2]
 		for i := 0; i < target/2; i++ {
 			c.next++
-			c.h.Push([2]int{o.A % 6, c.next})
+			c.h.Push(mkHel(o.A%6, c.next))
 			c.h.Pop()
 		}
 		return addRemove
@@ -368,6 +399,9 @@ func genPlan(kind string) func(t *rapid.T) Plan {
 			var names []string
 			if kind == "deque" {
 				names = []string{"PushBackN", "PushFrontN", "PopFrontN", "PopBackN", "Shrink", "Grow", "FillToCap", "PushBackN"}
+				if i == ns-1 && rapid.IntRange(0, 11).Draw(t, "big") == 0 {
+					names = []string{"BigToQuarter"}
+				}
 			} else {
 				names = []string{"PushN", "PushN", "PopN"}
 			}
@@ -397,22 +431,22 @@ func build(p Plan) (container, error) {
 		return c, nil
 	case "heap":
 		c := &hp{}
-		var initial [][2]int
+		var initial []hel
 		for _, s := range p.Setup {
 			if s.Op == "PushN" && len(initial) < 10 && c.next == len(initial) {
 				for i := 0; i < s.N; i++ {
 					c.next++
-					initial = append(initial, [2]int{(i * 7) % 5, c.next})
+					initial = append(initial, mkHel((i*7)%5, c.next))
 				}
 			}
 		}
-		c.h = xheap.New(func(a, b [2]int) bool { return a[0] < b[0] }, initial)
+		c.h = xheap.New(func(a, b hel) bool { return a.pri < b.pri }, initial)
 		for _, s := range p.Setup[min(1, len(p.Setup)):] {
 			switch s.Op {
 			case "PushN":
 				for i := 0; i < s.N; i++ {
 					c.next++
-					c.h.Push([2]int{(c.next * 5) % 7, c.next})
+					c.h.Push(mkHel((c.next*5)%7, c.next))
 				}
 			case "PopN":
 				for i := 0; i < s.N && c.h.Len() > 0; i++ {
